@@ -384,7 +384,7 @@ def _lf_txt(lf):
 def c10b_length_writers(prog, res):
     from cfg import dominators, elem_positions, enclosing_elem, dominates
     stat = res.stat("C10.b", "stores to size-determining length fields happen only on an object allocated in the "
-                    "same function (construction), never on a live object", floor=8)
+                    "same function (construction), never on a live object", floor=5)
     rows, g = tables.type_rows(prog)
     L = Layout(prog)
     sizefields = {}
@@ -488,7 +488,7 @@ def _aligned(fn, n, at_pos, pos, dom, depth=0):
 def c10c_heap_sizes(prog, res):
     from cfg import dominators, elem_positions, enclosing_elem
     stat = res.stat("C10.c", "every heap segment is created with a size that is a multiple of the %d-byte granule" % HEAP_ALIGN,
-                    floor=3)
+                    floor=2)
     for fn in prog.all_funcs():
         pos = dom = None
         for i, nd in enumerate(fn.nodes):
